@@ -507,6 +507,55 @@ func (x *Exec) aidPoints(st *State, goal *Term) []*Term {
 	return sks
 }
 
+// snapshotObject records, the first time a pointer to a struct object is converted to an interface on a path, the
+// scalar fields of that object as values of uninterpreted "snapshot" functions of the object identity:
+// snap.T.f(id) == value.  Contracts read them back with snap(e, *T, f) even after the interface value has been
+// stored in an array and the object itself is out of reach (ghost history; distinct objects have distinct identities).
+func (x *Exec) snapshotObject(st *State, pv *PtrV) {
+	if pv.Obj == nil || pv.Obj.Dummy || pv.Obj.Array || len(pv.Path) != 0 {
+		return
+	}
+	if _, ok := structOf(pv.Elem); !ok {
+		return
+	}
+	mark := fmt.Sprintf("snap:%d", pv.Obj.ID)
+	if _, done := st.ghost[mark]; done {
+		return
+	}
+	st.ghost[mark] = x.tb.True()
+	os, ok := st.mem[pv.Obj]
+	if !ok || os.Val == nil {
+		return
+	}
+	leaves, _ := leafPaths(pv.Elem)
+	for _, l := range leaves {
+		if strings.Contains(l.Key, "#") {
+			continue
+		}
+		v, isT := getPathSafe(os.Val, l.Path).(*Term)
+		if !isT {
+			continue
+		}
+		f := x.snapFun(pv.Elem, l.Key, l.Sort)
+		st.Assume(x.tb.Implies(x.tb.Not(pv.IsNil), x.tb.Eq(x.tb.App(f, x.tb.Intc(int64(pv.Obj.ID))), v)))
+	}
+}
+
+func (x *Exec) snapFun(t types.Type, key string, s Sort) *FunDecl {
+	return x.tb.DeclareFun("snap."+types.TypeString(t, nil)+key, []Sort{SInt}, s)
+}
+
+func getPathSafe(v SVal, path []int) SVal {
+	for _, i := range path {
+		sv, ok := v.(*StructV)
+		if !ok || i >= len(sv.Fields) {
+			return nil
+		}
+		v = sv.Fields[i]
+	}
+	return v
+}
+
 // safety obligation: checked then assumed.
 func (x *Exec) safety(st *State, fr *Frame, what string, goal *Term, pos token.Pos) {
 	if x.safetyOn {
@@ -1291,6 +1340,7 @@ func (x *Exec) step(fr *Frame, st *State, ins ssa.Instruction) bool {
 		case *PtrV:
 			// typed nil pointers keep a non-zero tag
 			iv.Id = tb.Ite(pv.IsNil, tb.Intc(0), tb.Intc(int64(pv.Obj.ID)))
+			x.snapshotObject(st, pv)
 		case *Term:
 			iv.Id = tb.Intc(1) // scalar payloads are compared by value (bits/str), not by identity
 			x.ifaceBits(iv)
